@@ -4,6 +4,7 @@ import (
 	"fmt"
 	"go/token"
 	"go/types"
+	"sort"
 	"strings"
 
 	"golang.org/x/tools/go/ssa"
@@ -56,18 +57,21 @@ func c19r1(c *Ctx, id string) {
 		},
 	}
 	// resolve the index of the ctx.Done case from the select statement itself
+	// (the wait may live in a helper the round calls; the evaluator inlines it)
 	doneIdx, otherIdx := -1, -1
-	allInstrs(fn, func(in ssa.Instruction) {
-		if s, ok := in.(*ssa.Select); ok {
-			for i, stt := range s.States {
-				if strings.HasSuffix(w.Origin(stt.Chan), ".Done)()") {
-					doneIdx = i
-				} else {
-					otherIdx = i
+	for f := range w.syncCallees(fn, 2, true) {
+		allInstrs(f, func(in ssa.Instruction) {
+			if s, ok := in.(*ssa.Select); ok {
+				for i, stt := range s.States {
+					if strings.HasSuffix(w.Origin(stt.Chan), ".Done)()") {
+						doneIdx = i
+					} else {
+						otherIdx = i
+					}
 				}
 			}
-		}
-	})
+		})
+	}
 	if doneIdx < 0 || otherIdx < 0 {
 		c.Fail(id, fname(fn), fn.Pos(), "the retry wait is not a select over ctx.Done() and a timer")
 		return
@@ -123,7 +127,27 @@ func c19r2(c *Ctx, id string) {
 		c.see(fn)
 		var bad []string
 		nSel := 0
-		allInstrs(fn, func(in ssa.Instruction) {
+		// the function together with the helpers it calls synchronously; the round is judged on its own, not again as
+		// part of run
+		unit := w.syncCallees(fn, 2, true)
+		if name == "run" {
+			if php := w.Method("couchbase", "healthCheck", "performHealthCheck"); php != nil {
+				for f := range w.syncCallees(php, 2, true) {
+					delete(unit, f)
+				}
+			}
+		}
+		var fns []*ssa.Function
+		for f := range unit {
+			fns = append(fns, f)
+		}
+		sort.Slice(fns, func(i, j int) bool { return fname(fns[i]) < fname(fns[j]) })
+		each := func(visit func(ssa.Instruction)) {
+			for _, f := range fns {
+				allInstrs(f, visit)
+			}
+		}
+		each(func(in ssa.Instruction) {
 			switch x := in.(type) {
 			case *ssa.Select:
 				nSel++
